@@ -226,7 +226,8 @@ func c13Check(c *Ctx, cs c13Case) *Failure {
 	if cs.Reverse {
 		opts = append(opts, graph.InReverseOrder)
 	}
-	if cs.Limit > 0 {
+	if cs.Limit != 0 {
+		// zero and negative values all mean "no limit" (docker compose passes -1 by default)
 		opts = append(opts, graph.WithMaxConcurrency(cs.Limit))
 	}
 	if len(cs.Roots) > 0 {
@@ -483,7 +484,7 @@ func genC13(maxN int) func(t *rapid.T) c13Case {
 			}
 		}
 		cs.Reverse = rapid.Bool().Draw(t, "reverse")
-		cs.Limit = rapid.SampledFrom([]int{0, 0, 1, 1, 2, 3}).Draw(t, "limit")
+		cs.Limit = rapid.SampledFrom([]int{0, 0, 1, 1, 2, 3, -1, -2}).Draw(t, "limit")
 		if cs.N > 0 && rapid.IntRange(0, 3).Draw(t, "useroots") == 0 {
 			k := rapid.IntRange(1, 2).Draw(t, "nroots")
 			for i := 0; i < k; i++ {
@@ -540,9 +541,9 @@ func dagCase(n, bits, variant int) c13Case {
 		}
 	}
 	cs.Reverse = variant&1 == 1
-	cs.Limit = []int{0, 1, 2}[(variant>>1)%3]
+	cs.Limit = []int{0, 1, 2, -1}[(variant>>1)%4]
 	for i := 0; i < n; i++ {
-		cs.Releases = append(cs.Releases, (variant/6+i)%3)
+		cs.Releases = append(cs.Releases, (variant/8+i)%3)
 	}
 	cs.Perturb = []byte{byte(3 + variant), 5, 0, 6}
 	return cs
@@ -551,7 +552,7 @@ func dagCase(n, bits, variant int) c13Case {
 func TestC13(t *testing.T) {
 	c := NewCtx(t, "C13")
 
-	// (a) every labelled DAG (upper-triangular) on <= 4 (thorough 5) services x direction x limit {0,1,2}
+	// (a) every labelled DAG (upper-triangular) on <= 4 (thorough 5) services x direction x limit {0,1,2,-1}
 	maxN := 4
 	if c.Thorough() {
 		maxN = 5
@@ -560,7 +561,7 @@ func TestC13(t *testing.T) {
 	var slots []slot
 	for n := 0; n <= maxN; n++ {
 		for bits := 0; bits < 1<<(n*(n-1)/2); bits++ {
-			for v := 0; v < 6; v++ {
+			for v := 0; v < 8; v++ {
 				slots = append(slots, slot{n, bits, v})
 			}
 		}
